@@ -380,7 +380,17 @@ class SymSubSet:
         return SymSubSet(mem)
 
     def sym_add(self, interp, item, node=None):
+        if getattr(self, 'frozen', False):
+            raise Raised('AttributeError', getattr(node, 'lineno', None), "'frozenset' object has no attribute 'add'", implicit=True)
         self.mem = _z3.Store(self.mem, _B.sub_term(interp, item), True)
+
+    def sym_freeze(self, interp):
+        r = SymSubSet(self.mem)
+        r.frozen = True
+        return r
+
+    def sym_toset(self, interp, node=None):
+        return SymSubSet(self.mem)           # set(<set of substances>): a new set with the same elements
 
     def sym_equals(self, interp, other):
         if isinstance(other, SymSubSet):
@@ -655,9 +665,35 @@ class NameDict:
             return BoundV(self, BuiltinV('NameDict.values', lambda i, a, k, n: NameDictValues(a[0])))
         if attr == 'get':
             raise Unsupported("NameDict.get")
+        if attr == 'update':
+            return BoundV(self, BuiltinV('NameDict.update', NameDict._update))
         if hasattr(dict, attr):
             raise Unsupported(f"dict.{attr} on a symbolic name dictionary")
         raise Raised('AttributeError', getattr(node, 'lineno', None), attr, implicit=True)
+
+    @staticmethod
+    def _update(interp, args, kwargs, node):
+        """d.update(pairs | dict, **kw): the stores of d[k] = v one after another, in order (a later equal key wins)"""
+        from .values import GenV
+        self = args[0]
+        pairs = []
+        if len(args) > 1:
+            src = args[1]
+            if isinstance(src, GenV):
+                src = interp.comprehend(src.node, src.env)
+            if isinstance(src, dict):
+                pairs = list(src.items())
+            elif isinstance(src, (list, tuple)):
+                for p in src:
+                    if not (isinstance(p, (tuple, list)) and len(p) == 2):
+                        raise Unsupported("dict.update with an element that is not a pair")
+                    pairs.append((p[0], p[1]))
+            else:
+                raise Unsupported(f"dict.update from {type(src).__name__}")
+        pairs += list(kwargs.items())
+        for k_, v_ in pairs:
+            self.sym_setitem(interp, k_, v_, node)
+        return None
 
     def sym_len(self, interp, node=None):
         c = _card(self.mem)
